@@ -122,3 +122,49 @@ PROPS['C10'] = {
         J('hist_casan', 'c10.cpp', 'casan', [0, 500000], scenario='lqueue_exhaustive,lqueue_history', threads=1, tiers=(T,), args=['--maxlen', '8']),
     ],
 }
+
+PROPS['C12'] = {
+    'technique': 'history vs reference multiset (manual mode), virtual-clock trace oracle (single thread), real-clock stress with quiescence hang detection',
+    'level_text': ('Three layers: (1) manual-mode histories over sleep_until/get_expired/cancel/remove/destroy with small, equal, past time points '
+                   'and reused identifiers, compared with a reference multiset of pending sleeps after every step; (2) scheduler::start(awaitable) '
+                   'in one thread under a virtual clock (hooks) where every sleeper must wake at exactly max(time point, call time), in time-point '
+                   'order, and cancels must hit exactly one pending sleeper of the id; (3) real-clock create/start/destroy cycles in own-thread, '
+                   'std::thread and thread-pool mode with sleeps pending at destruction, cancel-vs-expiry races, stop-token cancellation of '
+                   'interval(), and a stall right before the worker wait; hangs decided by quiescence.'),
+    'level_note': ('Trusts the reference model, the virtual clock installed through COCLS_VERIF now/wait_until handlers (bodies take zero virtual '
+                   'time), sysclock for the never-early check in real-time mode; lateness is a statistic, not a verdict.'),
+    'rule': ('case = one manual history (2-40 ops, 1-4 reused ids) / one virtual-time program (1-8 sleepers, 0-3 cancellers, optional late spawn) / '
+             'one real-time start-destroy round; non-trivial = >=3 ops, >=2 sleepers, every real-time round; distinct = distinct op trace with results / '
+             'program descriptor / (mode, pending count, race outcome).'),
+    'min_nontrivial': [200, 2000],
+    'single_thread_scenarios': ('scheduler_manual', 'scheduler_virtual', 'scheduler_threads', 'scheduler_stop_race', 'scheduler_interval_stop'),
+    'jobs': [
+        J('manual_asan', 'c12.cpp', 'asan', [30000, 1500000], scenario='scheduler_manual,scheduler_virtual', threads=1),
+        J('threads_asan', 'c12.cpp', 'asan', [30000, 600000], scenario='scheduler_threads', threads=1),
+        J('stop_asan', 'c12.cpp', 'asan', [30000, 1000000], scenario='scheduler_stop_race,scheduler_interval_stop', threads=1),
+        J('stop_rel', 'c12.cpp', 'rel', [60000, 2000000], scenario='scheduler_stop_race,scheduler_threads', threads=1),
+        J('manual_casan', 'c12.cpp', 'casan', [0, 500000], scenario='scheduler_manual,scheduler_virtual', threads=1, tiers=(T,)),
+    ],
+}
+
+PROPS['C17'] = {
+    'technique': 'stress rounds (resolver vs copy/await/wait/drop threads) with instance-counted payload, once-flags, ASan/LSan; ST histories',
+    'level_text': ('Every observer of every copy must see exactly the resolver\'s payload, every awaiter is released exactly once (once-flags), the '
+                   'instance-counted stored value is back to the baseline count after the last handle is gone and the promise is resolved (destroyed '
+                   'exactly once, never leaked), and ASan watches the resolver arriving after every handle was dropped. All three construction paths '
+                   '(promise functor, future-returning functor, default constructed + get_promise()) are drawn in histories and MT rounds.'),
+    'level_note': 'Handles are never shared between roles (per-role copies in setup) as the API requires; trusts payload counters and ASan/LSan.',
+    'rule': ('case = one single-thread history (construction path, resolve kind/time, 1-14 ops over copy/await/drop/wait/poll) or one team round '
+             '(resolver + 1-3 handle-owning threads with 1-4 actions each); non-trivial = at least one observer; distinct = distinct op trace / '
+             '(roles, parked awaiters, lost-race count).'),
+    'min_nontrivial': [200, 2000],
+    'require_classes': ['shared_future_mt:awaiters_parked_before_resolution', 'shared_future_mt:awaiters_lost_race_to_ready'],
+    'single_thread_scenarios': ('shared_future_history',),
+    'jobs': [
+        J('hist_asan', 'c17.cpp', 'asan', [30000, 1500000], scenario='shared_future_history', threads=1),
+        J('mt_asan', 'c17.cpp', 'asan', [40000, 2000000], scenario='shared_future_mt'),
+        J('mt_rel', 'c17.cpp', 'rel', [200000, 8000000], scenario='shared_future_mt'),
+        J('mt_crel', 'c17.cpp', 'crel', [0, 3000000], scenario='shared_future_mt', tiers=(T,)),
+        J('hist_casan', 'c17.cpp', 'casan', [0, 500000], scenario='shared_future_history', threads=1, tiers=(T,)),
+    ],
+}
